@@ -304,7 +304,7 @@ func (c *ctx) c20stressOne(cfg c20stress.Config) {
 	res.Distribution["conc-chunks-taken"] += rep.Taken
 	res.Distribution["conc-putbacks"] += rep.Putbacks
 	if rep.Violation != "" {
-		res.Fail("oracle", line, rep.Detail, rep.Violation)
+		res.Fail(c20kind(rep.Violation), line, rep.Detail, rep.Violation)
 		return
 	}
 	if cfg.Record {
@@ -398,8 +398,17 @@ func (c *ctx) c20raceOne(bin string, cfg c20stress.Config) {
 		res.Distribution["conc-call:"+k] += v
 	}
 	if rep.Violation != "" {
-		res.Fail("oracle", line, rep.Detail, rep.Violation)
+		res.Fail(c20kind(rep.Violation), line, rep.Detail, rep.Violation)
 	}
+}
+
+// c20kind: a deviation from the model that breaks no observable of the property is a
+// correspondence finding; everything else the stress reports is the property's oracle.
+func c20kind(sig string) string {
+	if strings.HasPrefix(sig, "conc-model-mismatch") {
+		return "correspondence"
+	}
+	return "oracle"
 }
 
 func runC20(c *ctx) {
@@ -430,6 +439,13 @@ func runC20(c *ctx) {
 		}
 		res.Fail("machinery", c.replay, "unparsable replay line", "driver")
 		return
+	}
+	// early warning (never gating): has the statement listing of util/queue.go changed?
+	if sk := c.ask([]string{"c20 skeleton"})[0]; sk == "match" {
+		res.Count("skeleton:match")
+	} else {
+		res.Count("skeleton:differs")
+		res.Note("early warning, not gating: statement skeleton of util/queue.go is not the one the model's step programs were written from (%s); re-inspect ScrapliModel/Queue.lean and ScrapliModel/QueueSkeleton.lean", sk)
 	}
 	r := c.rng
 	A, B := []byte("A"), []byte("Bb")
@@ -463,6 +479,32 @@ func runC20(c *ctx) {
 	}
 	hist = append(hist, nil) // the empty history
 	c.c20seqBatch(hist, "exhaustive")
+	if c.thorough() {
+		// three distinct chunks (one of them empty), length 6
+		C := []byte{}
+		alpha3 := append(append([]c20op{}, alphabet...), c20op{'e', C}, c20op{'r', C})
+		var h3 [][]c20op
+		idx3 := make([]int, 6)
+		for {
+			h := make([]c20op, 6)
+			for i := range h {
+				h[i] = alpha3[idx3[i]]
+			}
+			h3 = append(h3, h)
+			i := 5
+			for ; i >= 0; i-- {
+				idx3[i]++
+				if idx3[i] < len(alpha3) {
+					break
+				}
+				idx3[i] = 0
+			}
+			if i < 0 {
+				break
+			}
+		}
+		c.c20seqBatch(h3, "exhaustive-3-chunks-len-6")
+	}
 	res.Exhaustive = true
 	res.ExhaustiveOf = fmt.Sprintf("all %d sequential histories of length %d over 7 calls with 2 distinct chunks (hence all shorter ones as prefixes)", total, L)
 
@@ -500,10 +542,10 @@ func runC20(c *ctx) {
 
 	// concurrent stress, in-process
 	procs := []int{1, 2, 4, 16}
-	chunks := c.n(30000, 400000)
+	chunks := c.n(30000, 500000)
 	rounds := 2
 	if c.thorough() {
-		rounds = 6
+		rounds = 10
 	}
 	for round := 0; round < rounds; round++ {
 		for _, p := range procs {
@@ -520,7 +562,7 @@ func runC20(c *ctx) {
 	if bin == "" {
 		res.Note("race-detector run skipped: %s", why)
 	} else {
-		rc := c.n(8000, 150000)
+		rc := c.n(8000, 300000)
 		for round := 0; round < c.n(1, 3); round++ {
 			for _, p := range procs {
 				c.c20raceOne(bin, c20stress.Config{Seed: r.U64() >> 1, Chunks: rc, Procs: p})
